@@ -539,6 +539,15 @@ TEMPLATES = {
         [("real, target :: t", "continue"), ("real :: t", "target :: t")],
         ["end module m"],
     ],
+    "attribute-statements-shared-line": [
+        ["module m"],
+        # an attribute statement names ONE of several variables declared on one line
+        [("real, save, target :: first", "real, save :: second"), ("real, save :: first, second", "target :: first"),
+         ("real, save :: first, second", "TARGET FIRST"), ("REAL, SAVE :: FIRST, SECOND", "target first")],
+        [("integer, dimension(3), volatile :: n1", "integer, dimension(3) :: n2"), ("integer, dimension(3) :: n1, n2", "volatile n1"),
+         ("integer, dimension(3) :: n1, n2", "VOLATILE :: N1")],
+        ["end module m"],
+    ],
     "attribute-statements-optional": [
         ["subroutine s(w)"],
         [("real, optional :: w", "continue"), ("real :: w", "optional :: w"), ("real :: w", "OPTIONAL W")],
@@ -643,6 +652,7 @@ EXPECTED = {
     "kind-selectors": {"modules": [["m", {"variables": [["i8", {}], ["r", {}], ["l1", {}]]}]]},
     "attribute-statements": {"subroutines": [["s", {"args": [["a", {}], ["w", {}], ["k", {}]]}]]},
     "attribute-statements-2": {"modules": [["m", {"variables": [["n", {}], ["q", {}], ["p", {}], ["t", {}]]}]]},
+    "attribute-statements-shared-line": {"modules": [["m", {"variables": [["first", {}], ["second", {}], ["n1", {}], ["n2", {}]]}]]},
     "attribute-statements-optional": {"subroutines": [["s", {"args": [["w", {}]]}]]},
     "types": {"modules": [["m", {"types": [["t", {"boundprocs": [["p1", {}], ["b", {}], ["a", {}], ["g", {}]],
                                                   "finalprocs": [["fin", {}]], "variables": [["c", {}]]}]]}]]},
@@ -688,6 +698,13 @@ def _facts(tname, f):
         expect(v.vartype == "real" and str(v.kind) == "8" and sorted(a.lower() for a in v.attribs) == ["allocatable", "dimension(n)"],
                "v: real(8), dimension(n), allocatable")
         expect(c.vartype == "character" and str(c.strlen) == "10", "c: character(len=10)")
+    if tname == "attribute-statements-shared-line":
+        m = f.modules[0]
+        att = lambda n: sorted(a.lower().replace(" ", "") for a in var(m, n).attribs)
+        expect(att("first") == ["save", "target"], "first: save, target")
+        expect(att("second") == ["save"], "second: save only (the TARGET statement names `first`)")
+        expect(att("n1") == ["dimension(3)", "volatile"], "n1: dimension(3), volatile")
+        expect(att("n2") == ["dimension(3)"], "n2: dimension(3) only")
     if tname == "procedure-prefixes":
         m = f.modules[0]
         fn = {str(x.name).lower(): x for x in m.functions}
